@@ -32,7 +32,7 @@ EXTENDS Precond
 
 CONSTANT BS        \* block size: 2, 3 (1 = cross check against the scalar definitions of Precond, not replayed)
 VARIABLE tab       \* results of the operators on every test vector (constant along a behaviour)
-bvars == <<n, P, pal, kind, par, F, life, cur, atInit, hist, tab>>
+bvars == <<n, P, pal, kind, par, F, life, cur, atInit, wAt, hist, tab>>
 
 TupB(len, G(_)) ==
   IF len <= 6 THEN Tup(len, G)
@@ -249,13 +249,14 @@ BInit ==
   /\ pal \in Pals /\ kind \in Kinds /\ par \in BParams(kind) /\ F \in FilterSets(n)
   /\ tab = Table
   /\ TabExact(tab)
-  /\ life = "created" /\ cur = 1 /\ atInit = 0 /\ hist = <<>>
+  /\ life = "created" /\ cur = 1 /\ atInit = 0 /\ hist = <<>> /\ wAt = par.w
 
 BApply == /\ Enabled("AP") /\ life = "numeric"
           /\ hist' = Append(hist, [op |-> "AP", exp |-> BAllowed(atInit, cur), dev |-> BDevs(atInit, cur)])
-          /\ UNCHANGED <<n, P, pal, kind, par, F, life, cur, atInit>>
+          /\ UNCHANGED <<n, P, pal, kind, par, F, life, cur, atInit, wAt>>
 
-BNext == (InitSymbolic \/ InitNumeric \/ BApply \/ UpdateValues \/ DoneNumeric \/ DoneSymbolic) /\ UNCHANGED tab
+\* the blocked histories keep their relaxation parameter (set_omega is exercised by the scalar module): SO is a no-op step
+BNext == (InitSymbolic \/ InitNumeric \/ BApply \/ UpdateValues \/ DoneNumeric \/ DoneSymbolic \/ SetOmegaNop) /\ UNCHANGED tab
 BSpec == BInit /\ [][BNext]_bvars
 
 \* ---- B7: sanity laws of the definitions (on every generated input; relations need the unfiltered operator) ---------
